@@ -605,6 +605,8 @@ def expected_ctor_plan(rec: dict) -> Tuple[List[str], Dict[str, str], bool]:
             has_skipped = True
             continue
         if f["kind"] == "O" and fid not in targets:
+            # passed through **packed_fields: its positional slot stays empty, later parameters go by keyword
+            has_skipped = True
             continue
         if f["param_kind"] == "W" or has_skipped:
             kw[f["param"]] = f"f_{fid}"
@@ -698,11 +700,43 @@ def c08_checks(repo: Repo, tier: str, res: CheckResult, seed: int) -> int:
                     res.add(_gen_finding("C08", "DEFAULT.identity", prog, 0, f"default {d}".replace(fid, "F"),
                                          f"field `{fid}`: the absent path must use the captured default object itself "
                                          f"(`dfl_{fid}` bound to the very object), found `{d}` -> {ns.get(d, {}).get('tag')}"))
-            elif kind == "DFO":
-                if d != f"dfl_{fid}()" or ns.get(f"dfl_{fid}", {}).get("tag") != "factory:custom":
+            elif kind == "DVE":
+                if d != f"dfl_{fid}" or ns.get(d, {}).get("tag") != f"default:{fid}":
+                    res.add(_gen_finding("C08", "DEFAULT.identity", prog, 0, f"default {d}".replace(fid, "F"),
+                                         f"field `{fid}`: the absent path must use the captured default object itself, found `{d}` -> "
+                                         f"{ns.get(d, {}).get('tag')}"))
+            elif kind in ("DFO", "DFI"):
+                want_tag = "factory:custom" if kind == "DFO" else "factory:immutable"
+                if d != f"dfl_{fid}()" or ns.get(f"dfl_{fid}", {}).get("tag") != want_tag:
                     res.add(_gen_finding("C08", "DEFAULT.factory-call", prog, 0, f"default {d}".replace(fid, "F"),
                                          f"field `{fid}`: a factory default must be a call `dfl_{fid}()` evaluated in the function "
                                          f"body on every load (fresh object), found `{d}` -> {ns.get('dfl_' + fid, {}).get('type')}"))
+        # capture stage: every namespace constant reaches the compiled module as itself (identity) or as a type-exact literal
+        for c in rec.get("capture", []):
+            res.evaluated(f"G:capture:{prog.ident}:{c['name']}", True)
+            BG_ = "adaptix/_internal/morphing/model/basic_gen.py"
+            if c["mode"] == "global":
+                if not c.get("same_object"):
+                    res.add(Finding("C08", "CAPTURE.other-object", BG_, "compile_closure_with_globals_capturing",
+                                    f"{abstract_construct(c['name'])} bound to another object",
+                                    f"generated model loader ({prog.ident}): namespace constant `{c['name']}` ({c.get('tag') or c['probe'].get('t')}) "
+                                    f"reaches the compiled module as `{c['expr']}`, which is bound to a DIFFERENT object (of type "
+                                    f"{c.get('bound_type')}): equal-looking constants were merged, an omitted field receives a "
+                                    "look-alike of its default"))
+            elif c["mode"] == "literal":
+                try:
+                    got = _encode(_eval_literal(c["expr"]))
+                except Exception as ex:  # noqa: BLE001
+                    got = {"error": str(ex)}
+                if got != c["probe"]:
+                    res.add(Finding("C08", "CAPTURE.look-alike-literal", BG_, "compile_closure_with_globals_capturing",
+                                    f"{abstract_construct(c['name'])} = {c['expr'][:40]}",
+                                    f"generated model loader ({prog.ident}): namespace constant `{c['name']}` is inlined as "
+                                    f"`{c['expr']}`, which is not the registered value (type {c['probe'].get('t')})"))
+            else:
+                res.add(Finding("C08", "CAPTURE.missing", BG_, "compile_closure_with_globals_capturing", abstract_construct(c["name"]),
+                                f"generated model loader ({prog.ident}): namespace constant `{c['name']}` is not bound in the "
+                                "compiled module"))
     res.coverage["programs"] = res.coverage.get("programs", 0) + n
     return n
 
